@@ -298,17 +298,26 @@ std::string propNum(const FmmCase& c0, const std::string& prop){
     }
     else{
         // (iii) power-of-two scaling and dyadic shift of box and positions: potential / s, force / s^2
-        FmmCase cs = c;
-        const Real s = Real(std::ldexp(1.0, int(gf::splitmix(c.salt) % 7) - 3));
-        const Real shift = Real(std::ldexp(1.0, std::ilogb(double(w[0])) + 1 + int(c.salt % 2))) * Real(int(gf::splitmix(c.salt + 3) % 5) - 2);
-        auto mapPos = [&](std::vector<Pos4>& v){ for(auto& p : v) for(int d = 0 ; d < 3 ; ++d) p[size_t(d)] = double(Real((Real(p[size_t(d)]) + shift) * s)); };
-        mapPos(cs.pos); mapPos(cs.tpos);
-        std::array<Real, 3> w2{{Real(w[0] * s), Real(w[0] * s), Real(w[0] * s)}}, c2{{Real((ctr[0] + shift) * s), Real((ctr[1] + shift) * s), Real((ctr[2] + shift) * s)}};
-        // the relation is exact only when the shifted coordinates are exactly representable: check, else skip the relation
-        bool exact = true;
-        for(size_t i = 0 ; i < c.pos.size() && exact ; ++i) for(int d = 0 ; d < 3 ; ++d) if(((long double)Real(c.pos[i][size_t(d)]) + (long double)shift) * (long double)s != (long double)Real(cs.pos[i][size_t(d)])) exact = false;
-        for(size_t i = 0 ; i < c.tpos.size() && exact ; ++i) for(int d = 0 ; d < 3 ; ++d) if(((long double)Real(c.tpos[i][size_t(d)]) + (long double)shift) * (long double)s != (long double)Real(cs.tpos[i][size_t(d)])) exact = false;
-        for(int d = 0 ; d < 3 ; ++d) if(((long double)ctr[size_t(d)] + (long double)shift) * (long double)s != (long double)c2[size_t(d)]) exact = false;
+        FmmCase cs;
+        const int sexp = (KERNEL == 1 && RealCode) ? int(gf::splitmix(c.salt) % 2) * 2 - 1 : int(gf::splitmix(c.salt) % 6) - 3;   // float rotation: see F-ROT-FLOAT-RANGE
+        const Real s = Real(std::ldexp(1.0, sexp >= 0 && !(KERNEL == 1 && RealCode) ? sexp + 1 : sexp));               // never 1
+        Real shift = Real(std::ldexp(1.0, std::ilogb(double(w[0])) + 1 + int(c.salt % 2))) * Real(int(gf::splitmix(c.salt + 3) % 5) - 2);
+        std::array<Real, 3> w2, c2;
+        bool exact = false;
+        // the relation is exact only when the shifted coordinates are exactly representable: check, else fall back to the pure
+        // power-of-two scaling (always exact)
+        for(int attempt = 0 ; attempt < 2 && !exact ; ++attempt){
+            if(attempt == 1) shift = 0;
+            cs = c;
+            auto mapPos = [&](std::vector<Pos4>& v){ for(auto& p : v) for(int d = 0 ; d < 3 ; ++d) p[size_t(d)] = double(Real((Real(p[size_t(d)]) + shift) * s)); };
+            mapPos(cs.pos); mapPos(cs.tpos);
+            w2 = {{Real(w[0] * s), Real(w[0] * s), Real(w[0] * s)}}; c2 = {{Real((ctr[0] + shift) * s), Real((ctr[1] + shift) * s), Real((ctr[2] + shift) * s)}};
+            for(int d = 0 ; d < 3 ; ++d){ cs.center[size_t(d)] = double(c2[size_t(d)]); cs.width[size_t(d)] = double(w2[size_t(d)]); }   // the model of the transformed case uses the transformed box
+            exact = true;
+            for(size_t i = 0 ; i < c.pos.size() && exact ; ++i) for(int d = 0 ; d < 3 ; ++d) if(((long double)Real(c.pos[i][size_t(d)]) + (long double)shift) * (long double)s != (long double)Real(cs.pos[i][size_t(d)])) exact = false;
+            for(size_t i = 0 ; i < c.tpos.size() && exact ; ++i) for(int d = 0 ; d < 3 ; ++d) if(((long double)Real(c.tpos[i][size_t(d)]) + (long double)shift) * (long double)s != (long double)Real(cs.tpos[i][size_t(d)])) exact = false;
+            for(int d = 0 ; d < 3 ; ++d) if(((long double)ctr[size_t(d)] + (long double)shift) * (long double)s != (long double)c2[size_t(d)]) exact = false;
+        }
         if(exact){
             const Config config2(H, w2, c2);
             rm::ModelTree m2; m2.build<Real>(cs, cs.tpos);
@@ -320,7 +329,7 @@ std::string propNum(const FmmCase& c0, const std::string& prop){
                 for(size_t t = 0 ; t < r2.v.size() ; ++t){ r2.v[t][3] = Real(r2.v[t][3] * s); for(size_t k = 0 ; k < 3 ; ++k) r2.v[t][k] = Real(r2.v[t][k] * s * s); }
                 // the P2P part sees coordinates that differ by the shift: allow the rounding of (x+shift) differences
                 e = closeTo(res, r2, 4, 4, "a power-of-two scaling and dyadic shift of the box"); if(!e.empty()) return e;
-                st.cls("relation:scaling-and-shift");
+                st.cls(shift != 0 ? "relation:scaling-and-shift" : "relation:scaling");
             }
         }
     }
